@@ -117,9 +117,10 @@ func parseTSan(stderr string) []tsanReport {
 }
 
 // runSchedChild runs one scheduled simulation in a fresh OS process.
-func runSchedChild(mode string, seed, run uint64, explicit *schedOut, timeout time.Duration) (*schedOut, string, error) {
+func runSchedChild(mode string, seed, run uint64, explicit *schedOut, timeout time.Duration, extra ...string) (*schedOut, string, error) {
 	self, _ := os.Executable()
 	args := []string{"schedrun", "-mode", mode, "-seed", fmt.Sprint(seed), "-run", fmt.Sprint(run), "-ops"}
+	args = append(args, extra...)
 	var tmp string
 	if explicit != nil {
 		dir := os.Getenv("VERIF_SCRATCH")
